@@ -80,6 +80,8 @@ func c07ReaderWriter(c *Ctx) {
 				ok := tt == "*ngo/internal/envelope.Payload" || tt == "*map[string]interface{}" || tt == "*map[string]any"
 				c.Check(ok, key, "reader/writer agreement: the verified payload content is decoded into *envelope.Payload (the type the signers marshal) or a generic map", w.InstrPos(call),
 					"the payload content is decoded into "+tt+" (json decodes by field name: a different struct silently yields zero values)")
+				fresh, why := freshDecodeTarget(w.Info(fn), call)
+				c.Check(fresh, key+"/fresh-target", "the verified payload content is decoded into a fresh variable (json.Unmarshal keeps what the input omits: decoding over the request's payload would fill the gaps of the signed one)", w.InstrPos(call), why)
 			case "encoding/json.Marshal":
 				a := unwrap(call.Call.Args[0])
 				if namedOf(a.Type()) == "ngo/internal/envelope.Payload" {
@@ -256,8 +258,8 @@ func evalScalarFn(fn *ssa.Function, in AVal) []AVal {
 func c07Tables(c *Ctx) {
 	w := c.W
 	// signer.algorithms == verifier.algorithms
-	es, ps := w.pkgVarInit("signer", "algorithms")
-	ev, pv := w.pkgVarInit("verifier", "algorithms")
+	es, ps := w.pkgVarInit("signer", w.globalWhere("signer", isHashDigestMap))
+	ev, pv := w.pkgVarInit("verifier", w.globalWhere("verifier", isHashDigestMap))
 	var ms, mv map[string]string
 	if es != nil && ev != nil {
 		ms, _ = mapLiteral(ps, es)
@@ -577,18 +579,19 @@ func c07Payload(c *Ctx) {
 	}
 	// blob digest algorithm at signing
 	var gd *ssa.Function
+	sAlg := "global:ngo/signer." + w.globalWhere("signer", isHashDigestMap)
 	for _, fn := range w.FuncsOfPkg("signer") {
 		for _, b := range fn.Blocks {
 			for _, in := range b.Instrs {
-				if lk, ok := in.(*ssa.Lookup); ok && desc(lk.X) == "global:ngo/signer.algorithms" {
+				if lk, ok := in.(*ssa.Lookup); ok && desc(lk.X) == sAlg {
 					gd = fn
 					s := w.Summarize(fn, Mode{Kind: mErr})
 					c.Evals += s.States
 					c.SeenFn(fn.String())
 					key := "call:(core/internal/algorithm.Algorithm).Hash(call:(core/internal/algorithm.KeySpec).SignatureAlgorithm(param:" + fn.Params[0].Name() + "))"
 					c.requireOnExits("payload/blob-digest-algorithm", fn, s.Exits, []Need{
-						{Name: "lookup", What: "algorithms[keySpec.SignatureAlgorithm().Hash()] found", Subs: []string{"T(ok(global:ngo/signer.algorithms[" + key + "]))"}},
-						{Name: "generator", What: "descriptor generator applied to that digest algorithm", Subs: []string{"EQ(call:dyn:param:", "(global:ngo/signer.algorithms[call:(core/internal/algorithm.Algorithm).Hash(call:(core/internal/algorithm.KeySpec).SignatureAlgorithm(", "#err,nil)"}},
+						{Name: "lookup", What: "algorithms[keySpec.SignatureAlgorithm().Hash()] found", Subs: []string{"T(ok(" + sAlg + "[" + key + "]))"}},
+						{Name: "generator", What: "descriptor generator applied to that digest algorithm", Subs: []string{"EQ(call:dyn:param:", "(" + sAlg + "[call:(core/internal/algorithm.Algorithm).Hash(call:(core/internal/algorithm.KeySpec).SignatureAlgorithm(", "#err,nil)"}},
 					})
 				}
 			}
@@ -620,7 +623,7 @@ func c07BlobDescriptor(c *Ctx) {
 			c.Evals++
 			c.SeenFn(fn.String())
 			d := desc(call.Call.Args[0])
-			ok2 := (strings.HasPrefix(d, "global:ngo/signer.algorithms[") || strings.HasPrefix(d, "global:ngo/verifier.algorithms[")) &&
+			ok2 := (strings.HasPrefix(d, "global:ngo/signer."+w.globalWhere("signer", isHashDigestMap)+"[") || strings.HasPrefix(d, "global:ngo/verifier."+w.globalWhere("verifier", isHashDigestMap)+"[")) &&
 				strings.Contains(d, "call:(core/internal/algorithm.Algorithm).Hash(")
 			c.Check(ok2, fmt.Sprintf("blob-descriptor/generator-call/%s", fnName(fn)), "who-may-call: a blob descriptor generator is invoked only with algorithms[hash bound to the signing key / signature algorithm] (signer and verifier derive the digest algorithm the same way)", w.InstrPos(call),
 				"the generator is invoked with "+d)
